@@ -231,6 +231,8 @@ def run_check(a, prop, spec, workdir, seed, t_start):
                 else:
                     v['native_output'] = out[-600:]
                     unconfirmed.append((key, v))
+    # ---- property-specific extra engines (e.g. E-CBMC interleaving scenarios)
+    extra = spec.extra(a, workdir) if hasattr(spec, 'extra') else None
     # ---- verdict
     lines = []
     new_viol = 0
@@ -252,6 +254,10 @@ def run_check(a, prop, spec, workdir, seed, t_start):
         print("KNOWN-FINDING: property=%s %s" % (prop, k['what']))
     for l in lines: print(l)
     errors = [e for g in agg.values() for e in g['errors']]
+    if extra:
+        for msg, path in extra.get('violations', []):
+            print('  ' + msg); print("VIOLATION property=%s replay=%s" % (prop, path)); new_viol += 1
+        errors += extra.get('errors', [])
     incon = sorted(set(m for g in agg.values() for m in g['inconclusive']))
     # vacuity: every instance must have at least one path that returned and reached its marker
     vacuous = [k for k, g in agg.items() if g['ended'].get('return', 0) == 0 and not g['viol']]
@@ -287,6 +293,7 @@ def run_check(a, prop, spec, workdir, seed, t_start):
             'unconfirmed_candidates': [{'entry': v['entry'], 'kind': v['kind'], 'msg': v['msg'], 'site': v['site'], 'native': v['native'], 'inputs': [x[2] for x in v['inputs']][:64], 'params': v['params']} for k, v in unconfirmed][:20],
             'validation_mismatches': val_mismatch[:10],
             'timed_out': timed_out,
+            'extra_engine': (extra or {}).get('evidence', {}),
         },
         'assumptions': getattr(spec, 'ASSUMPTIONS', []) + ['heap allocation never fails; realloc always moves; exceptions end the path',
                                                            'engine-internal models of malloc/free/realloc/memcpy/memmove/memset/memcmp/strlen/strcmp/strchr'],
